@@ -542,6 +542,40 @@ def run_nolens(rec, seed):
             rec.violation("C02:inside:" + tag, "log-probability must be a real number or -inf", inp, jsonable(v), "finite real or -inf")
 
 
+def run_zero_edges(rec, seed):
+    """Boxes whose lower edge makes a rescaled distance vanish (lambda_mst = 0, the customary lower bound; gamma_ppn = -1): on that edge the
+    kinematic prediction is 0 or 0/0 - the value must still be a real number or -inf and nothing may raise (every lens type, one at a time
+    next to a plain Ddt lens)."""
+    from hierarc.Likelihood.cosmo_likelihood import CosmoLikelihood
+    rng = rng_of(seed, 23)
+    kb = dict(kwargs_lower_cosmo=dict(h0=0., om=0., gamma_ppn=-1.), kwargs_upper_cosmo=dict(h0=200., om=1., gamma_ppn=3.),
+              kwargs_lower_lens=dict(lambda_mst=0.), kwargs_upper_lens=dict(lambda_mst=2.))
+    for t in ["IFUKinCov", "DdtGaussKin", "DdtHistKin", "DsDdsGaussian", "DdtDdGaussian", "DdtLogNorm", "Mag", "TDMag", "TDMagMagnitude", "DdtHist", "DdtDdKDE", "DSPL"]:
+        try:
+            lens = dict(z_lens=0.5, z_source=2.0, likelihood_type=t, **lens_kwargs(t, rng))
+            plain = dict(z_lens=0.3, z_source=1.2, likelihood_type="DdtGaussian", ddt_mean=2000., ddt_sigma=150.)
+            km = dict(ppn_sampling=True, lambda_mst_sampling=True, lambda_mst_distribution="NONE")
+            if t in ("Mag", "TDMagMagnitude"): km.update(sne_apparent_m_sampling=True, sne_distribution="NONE"); kb2 = dict(kb, kwargs_lower_source=dict(mu_sne=10.), kwargs_upper_source=dict(mu_sne=30.))
+            else: kb2 = kb
+            cl = CosmoLikelihood([lens, plain], "FLCDM", km, kb2, interpolate_cosmo=bool(rng.random() < 0.5), num_redshift_interp=40)
+        except Exception as e:
+            rec.error("zero_edges setup %s: %r" % (t, e)); continue
+        n = cl.param.num_param
+        tail = [20.] if n == 5 else []
+        for x in ([70., 0.3, 1.0, 0.0], [70., 0.3, -1.0, 1.0], [70., 0.3, -1.0, 0.0], [70., 0.0, 1.0, 0.0], [70., 1.0, -1.0, 2.0], [200., 0.3, 3.0, 0.0]):
+            x = list(x) + tail
+            inp = dict(model=dict(zero_edges=True, seed=int(seed), lens_type=t), x=x, expect="inside", kind="zero_edge")
+            rec.case(dict(zero_edge=t), kind="inside/zero_edge/" + t)
+            try:
+                np.random.seed(3); v = cl.likelihood(x)
+            except Exception as e:
+                key = ("C02:raises:lambda_mst_zero:" + t) if x[3] == 0.0 else ("C02:raises:gamma_ppn_minus_one:" + t) if x[2] == -1.0 else ("C02:inside:raises:" + type(e).__name__)
+                rec.violation(key, "likelihood raised for a vector on the edge of the box (lambda_mst = 0 / gamma_ppn = -1)", inp, repr(e)[:200], "a real number or -inf"); continue
+            tag, val = classify(v)
+            if tag in ("nan", "plus_inf", "not_real"):
+                rec.violation("C02:inside:" + tag, "log-probability must be a real number or -inf", inp, jsonable(v), "finite real or -inf")
+
+
 def run_candidates(rec):
     """KNOWN FINDINGS (one deterministic witness each): two raise-inside-the-box situations at the edge of the
     property's proviso (interpolated parameters must stay inside their interpolation range); the random generator
@@ -712,6 +746,7 @@ def main():
         if inp.get("model", {}).get("witness"): rec.guard(run_witness, rec)
         elif inp.get("model", {}).get("kde_los_witness"): rec.guard(run_kde_los_witness, rec)
         elif inp.get("model", {}).get("nolens"): rec.guard(run_nolens, rec, inp["model"]["seed"])
+        elif inp.get("model", {}).get("zero_edges"): rec.guard(run_zero_edges, rec, inp["model"]["seed"])
         elif "candidate" in inp: rec.guard(run_candidates, rec)
         else: rec.guard(run_case, rec, inp["model"], only=inp)
         rec.write(args.out); return
@@ -720,6 +755,7 @@ def main():
     rec.guard(run_kde_los_witness, rec)
     rec.guard(run_candidates, rec)
     rec.guard(run_nolens, rec, args.seed)
+    rec.guard(run_zero_edges, rec, args.seed)
     t0 = time.process_time()                                  # the descending-axis block is inside the time budget of the tier
     ndesc = 27 if args.tier == "quick" else 216               # 9 families x orientations (each axis alone, all axes)
     for i in range(ndesc):
